@@ -44,6 +44,10 @@ type c09Scen struct {
 	AddRoute   bool        `json:"admin_adds_route"`
 	DelRoute   bool        `json:"admin_removes_route_instead,omitempty"` // the admin task removes POST /a/x instead of adding PUT /a/x
 	Verbs      bool        `json:"custom_verb_routes,omitempty"`          // POST /a/y/{id}:cancel and DELETE /a/x:purge are registered too
+	// Noise: the long-lived server. Before its change the admin task sends one preflight to every URL of
+	// the scenario and then so many preflights to as many different URLs; after the change one more. None
+	// of them is judged; what they leave behind must not show in the judged answers.
+	Noise int `json:"noise_preflights_before_the_change,omitempty"`
 }
 
 var c09URLs = []string{"/a/x", "/a/y", "/a/y/7", "/b/z", "/a/none", "/a/y/7/", "/a/x/", "/a/y/7/extra/", "/a/y/", "/a/v1.0/items", "/a/v1x0/items", "/a/v1.0/items/", "/b/z+z", "/b/zzz"}
@@ -74,6 +78,9 @@ func genC09(x *Ctx) *c09Scen {
 	sc.AddRoute = tp.Chance(250)
 	sc.Verbs = tp.Chance(300)
 	sc.DelRoute = sc.AddRoute && tp.Bool()
+	if sc.AddRoute && tp.Chance(60) {
+		sc.Noise = []int{30, 140, 300, 560}[tp.G(4)]
+	}
 	maxReq := 4
 	if x.Thorough() {
 		maxReq = 8
@@ -272,6 +279,7 @@ func runC09(x *Ctx) {
 	}
 	restful.EnableTracing(sc.Trace)
 	w := c09Build(sc, byID, false)
+	s.MaxSteps += 14 * sc.Noise
 	for ci, cl := range sc.Clients {
 		cl := cl
 		s.Go(fmt.Sprintf("client%d", ci), func(t *sim.Task) {
@@ -288,6 +296,22 @@ func runC09(x *Ctx) {
 	if sc.AddRoute {
 		s.Go("admin", func(t *sim.Task) {
 			t.Y(sim.SiteAdminPre)
+			noise := func(k int, path string) {
+				nr := &c09Req{ID: 40000 + k, Method: "OPTIONS", Path: path, Origin: "http://good.example", ACRM: []string{"GET", "POST", "PUT", "DELETE"}[k%4]}
+				t.Req = nr.ID
+				nw := sim.NewSimWriter(t)
+				nw.Quiet = true
+				Serve(w.c, EntryServeHTTP, nw, NewReq(nr.Method, nr.Path, map[string]string{"Origin": nr.Origin, "Access-Control-Request-Method": nr.ACRM}, nil, 0, nr.ID))
+			}
+			if sc.Noise > 0 {
+				for k, u := range append(append([]string{}, c09URLs...), c09VerbURLs...) {
+					noise(k, u)
+				}
+				for k := 0; k < sc.Noise; k++ {
+					noise(100+k, []string{"/a/y/n%d", "/b/n%d", "/a/n%d", "/a/y/n%d/"}[k%4][:0]+fmt.Sprintf([]string{"/a/y/n%d", "/b/n%d", "/a/n%d", "/a/y/n%d/"}[k%4], k))
+				}
+				t.Count("reach:aged-container")
+			}
 			adminCall = t.Stamp()
 			if sc.DelRoute {
 				w.wsA.RemoveRoute("/a/x", "POST")
@@ -295,6 +319,9 @@ func runC09(x *Ctx) {
 				w.wsA.Route(w.wsA.PUT("/x").To(func(req *restful.Request, resp *restful.Response) { resp.Write([]byte("PUT /a/x")) }))
 			}
 			adminRet = t.Stamp()
+			if sc.Noise > 0 {
+				noise(99, "/a/y/after")
+			}
 			t.Y(sim.SiteAdminPost)
 		})
 	}
